@@ -1,5 +1,6 @@
 import KM.Props.C11
 import KM.Gen.GoIPRestr
+import KM.Gen.GoIPUser
 /-! # C11 — `VerifyIPRestrictedX509CertIP` as TRANSLATED from the current source (go2lean)
 
 lib/certgen, whole function (`KM/Gen/GoIPRestr.lean`): three loops (the search for the extension, the families, the
@@ -219,3 +220,78 @@ theorem c11_go_verify_unrestricted (ext : IPExt ε β ι) (exts : List ε) (addr
   rcases hs : ext.splitHostPort addr with ⟨host, port, _ | e'⟩ <;> simp [this]
 
 end KM.IPBlockGo
+
+/-! ## `getUsernameIfIPRestricted` (cmd/keymasterd, whole function; `KM/Gen/GoIPUser.lean`) -/
+namespace KM.IPUserGo
+open KM.GoTypes KM.Go
+
+/-- **an IP-restricted certificate yields an identity exactly when** `VerifyIPRestrictedX509CertIP` said `true`
+without an error for this connection's remote address (see `c11_go_verify_true`: only from inside one of the
+certificate's own blocks), the key's fingerprint could be computed and is not on the deny list, the common name is an
+automation user, and the certificate is not known to be revoked; the identity is the certificate's common name.  In
+every other case no name is returned and one of the two errors is set. -/
+theorem c11_go_ip_user (ext : IPUserExt) (cn : List Char) (denied : List (List Char)) (now : Nat) :
+    (∃ fp rv ok re, ext.verifyIP = (true, none) ∧ ext.fingerprint = (fp, none) ∧ fp ∉ denied ∧
+        ext.isAutomationUser cn = (true, none) ∧ ext.revocation = (rv, ok, re) ∧ (rv && ok) = false ∧
+        KM.Gen.GoIPUser.getUsernameIfIPRestricted ext cn denied now = (cn, now, none, none)) ∨
+    (∃ ue e, KM.Gen.GoIPUser.getUsernameIfIPRestricted ext cn denied now = ([], 0, ue, e) ∧
+        (ue.isSome || e.isSome) = true ∧
+        ¬ (∃ fp rv ok re, ext.verifyIP = (true, none) ∧ ext.fingerprint = (fp, none) ∧ fp ∉ denied ∧
+            ext.isAutomationUser cn = (true, none) ∧ ext.revocation = (rv, ok, re) ∧ (rv && ok) = false)) := by
+  obtain ⟨⟨v, ve⟩, ⟨fp, fe⟩, au, ⟨rv, ok, re⟩⟩ := ext
+  unfold KM.Gen.GoIPUser.getUsernameIfIPRestricted
+  dsimp only
+  cases ve with
+  | some e => right; exact ⟨_, _, rfl, rfl, by rintro ⟨_, _, _, _, h, _⟩; cases h⟩
+  | none =>
+    simp only [Option.isSome_none, Bool.false_eq_true, if_false]
+    cases v
+    · right; exact ⟨_, _, rfl, rfl, by rintro ⟨_, _, _, _, h, _⟩; cases h⟩
+    · simp only [Bool.not_true, Bool.false_eq_true, if_false]
+      cases fe with
+      | some e => right; exact ⟨_, _, rfl, rfl, by rintro ⟨_, _, _, _, _, h, _⟩; cases h⟩
+      | none =>
+        simp only [Option.isSome_none, Bool.false_eq_true, if_false]
+        rw [forRange_findRet (fun r => fp == r)
+          (fun _ => (([] : List Char), (0 : Nat), (some "revoked key with FP:%s".toList : Option Err), (none : Option Err)))
+          _ (by intro x s; cases s; rfl)]
+        cases hf : denied.find? (fun r => fp == r) with
+        | some r =>
+          right
+          refine ⟨_, _, rfl, rfl, ?_⟩
+          rintro ⟨fp', _, _, _, _, h, hn, _⟩
+          cases h
+          have := List.find?_some hf
+          have hm := List.mem_of_find?_eq_some hf
+          simp only [beq_iff_eq] at this
+          exact hn (this ▸ hm)
+        | none =>
+          have hnd : fp ∉ denied := by
+            intro hm
+            have := List.find?_eq_none.mp hf fp hm
+            simp at this
+          simp only
+          rcases hau : au cn with ⟨isau, _ | e⟩
+          · cases isau
+            · right
+              refine ⟨_, _, rfl, rfl, ?_⟩
+              rintro ⟨_, _, _, _, _, _, _, h, _⟩
+              cases h
+            · by_cases hr : ((rv == true) && ok) = true
+              · right
+                refine ⟨some "revoked cert".toList, none, ?_, rfl, ?_⟩
+                · simp only [Option.isSome_none, Bool.false_eq_true, if_false, Bool.not_true, hr, if_true]
+                · rintro ⟨_, _, _, _, _, _, _, _, h, h2⟩
+                  cases h
+                  simp only [beq_true] at hr
+                  rw [hr] at h2; cases h2
+              · left
+                refine ⟨fp, rv, ok, re, trivial, rfl, hnd, rfl, rfl, ?_, ?_⟩
+                · simpa using hr
+                · simp only [Option.isSome_none, Bool.false_eq_true, if_false, Bool.not_true, hr]
+          · right
+            refine ⟨_, _, rfl, rfl, ?_⟩
+            rintro ⟨_, _, _, _, _, _, _, h, _⟩
+            cases h
+
+end KM.IPUserGo
